@@ -108,6 +108,12 @@ CHECKS = {
          '~4 000 (quick) / ~65 000 (thorough) planted failures: expression occurrences the reference model reaches in generated string templates (every statement site, multi-line and non-ASCII lead text) and the five occurrence positions of a randomised three-file load: / use-macro / fill-slot chain, each raising one of ten classes (builtin, two-argument custom with attribute, __str__ override, UnicodeDecodeError, RecursionError, KeyboardInterrupt, SystemExit, GeneratorExit).',
          'Trusted: the regex that parses message records; the C01 generator and model for reachability; file names compared on their last 40 characters.',
          'DESIGN.md §3 C12'),
+ 'C02': ('invariant-over-outputs',
+         'runtime oracle on real renderings: independent reader (html.parser + strict scanner) compares the event structure of the hostile rendering with the harmless one, locates the inserted region by sentinels, un-escapes it literally and compares with the value\'s string form; raw-character scan of the region; converse check for the opt-outs',
+         'exploration',
+         '1 600 (quick) / 3 600 (thorough, the full product) (site, wrapper, value) triples over 20 site kinds (text, both attribute quotings, two interpolations in one attribute, tal:attributes onto new / double / single quoted statics, dictionary value, comment, content, replace, string: in content and attribute, inside i18n:translate, i18n:name blocks, pipe) x 6 wrappers (plain, repeat, define, condition, macro slot filler, on-error) x 30 hostile values (each markup character, both quotes, attribute break-outs, ]]>, -->, entity look-alikes, NUL, non-ASCII, bytes, str subclass, numbers, hostile __str__, message object with hostile translation); 7 opt-out sites x 30 values checked for raw insertion.',
+         'Trusted: html.parser and the strict scanner; out of the statement and not checked: attribute names from dictionary keys, return values of the translation function for i18n:translate / i18n:attributes, unquoted attribute values.',
+         'DESIGN.md §3 C02'),
 }
 NOT_YET = {}
 
